@@ -1,24 +1,28 @@
-"""C06, threaded part: the real strax.ThreadedMailboxProcessor on harness plugin graphs under the
-controlled scheduler, and the derivation of the Coq network (coq/Model/MailboxFail.v) from the wiring the
-real processor built.
+"""C06, threaded part: the real strax.ThreadedMailboxProcessor under the controlled scheduler, and the
+derivation of the Coq network (coq/Model/MailboxFail.v) from the wiring the real processor built.
+
+Two systems:
+
+NetSystem      the processor wired from a hand-made strax.ProcessorComponents: the plugins are stand-ins
+               whose `iter` fetches one chunk from every dependency in turn and yields one chunk (the fetch order
+               of strax.Plugin.iter for equally chunked inputs); loaders are plain generators; savers are
+               subclasses of strax.Saver keeping their chunks in memory, so the real Saver.save_from / close run;
+               messages are real strax.Chunk objects.  The caller drives ThreadedMailboxProcessor.iter() directly.
+ContextSystem  a real strax.Context with real strax.Plugin subclasses and a real DataDirectory; the caller
+               iterates Context.get_iter(..., processor=<ThreadedMailboxProcessor>) (the relay of context.py).
 
 A *case* (JSON-able dict):
-  {"N": chunks per source, "cap": max_messages, "lazy": allow_lazy, "relay": False,
+  {"N": chunks per source, "cap": max_messages, "lazy": allow_lazy, "relay": False (NetSystem) / True (ContextSystem),
    "nodes": [{"name": "a", "kind": "source"|"loader"|"plugin"|"multi", "deps": [...], "provides": [...]}],
-   "savers": {"a": 1, ...}        number of savers per data type
+   "savers": {"a": 1, ...}        number of savers per data type (ContextSystem: 0 / 1)
    "rechunk": ["a", ...]          data types whose savers rechunk (everything is saved by the final flush)
    "target": "x",
    "fault": {"node": "b", "pos": k} | {"saver": ["a", 0], "pos": k} | None,
    "cfault": {"chunk": k, "close": bool} | None}
-
-The processor is the real one, wired from a hand-made strax.ProcessorComponents: the plugins are stand-ins
-whose `iter` fetches one chunk from every dependency in turn and yields one chunk (the fetch order of
-strax.Plugin.iter for equally chunked inputs); loaders are plain generators; savers are subclasses of
-strax.Saver keeping their chunks in memory, so the real Saver.save_from / close run; messages are real
-strax.Chunk objects.
 """
 import functools
 import logging
+import os
 
 import numpy as np
 import strax
@@ -27,7 +31,7 @@ import strax.mailbox
 BIG_TIMEOUT = 10 ** 9       # real timeouts never fire; deadlocks are detected by the scheduler
 CODE = {"runnable": 0, "blocked": 1, "done": 2, "dead": 3, "new": 1}
 
-C_CLOSED, C_OUTSIDE, C_TYPEERR, C_MISMATCH, C_STOPITER = 2, 3, 4, 5, 6
+C_CLOSED, C_OUTSIDE, C_TYPEERR, C_MISMATCH, C_STOPITER, C_GENEXIT = 2, 3, 4, 5, 6, 7
 C_CONSUMER, C_BOOM = 9, 11
 
 
@@ -171,11 +175,17 @@ class MemSaver(strax.Saver):
         pass
 
 
+def _saver_of(target):
+    if isinstance(target, functools.partial) and getattr(target.func, "__name__", "") == "save_from":
+        return target.func.__self__
+    return None
+
+
 # ---------------------------------------------------------------------------------------------
 # the system under the controlled scheduler
 # ---------------------------------------------------------------------------------------------
-class NetSystem:
-    """Thread ids: the processor's threads in creation order, then the caller."""
+class BaseSystem:
+    """Common part: the caller's thread, warm-up, observation, derivation of the Coq network."""
 
     def __init__(self, sched, case):
         self.sched, self.case = sched, case
@@ -187,69 +197,28 @@ class NetSystem:
         self.consumer_exc = None
         self.result = None
         self.rows = []
-        self.proc = self.build_processor()
-        self.nproc_threads = len(sched.threads)
-        for t in sched.threads:
-            t._c06_target, t._c06_args = t._target, t._args
-            t._c06_locals = {}
-            if getattr(t._target, "__name__", "") == "_send_from":
-                gen = t._args[0]
-                t._c06_locals = dict(gen.gi_frame.f_locals) if gen.gi_frame is not None else {}
-                t._c06_code = gen.gi_code
-        self.caller = sched.threading.Thread(target=self.run_caller, name="caller")
-        self.main_tid = self.caller.tid
-        self.caller.start()
-        self.warmup()
+        self.proc = None
+        # which variant of the exception plumbing the model mirrors: (1, 1, 1) = the repaired code
+        # (F1-F3, design_notes/C06.md); C06_PINNED=1 selects the code before the repairs (debugging aid)
+        self.fixes = (0, 0, 0) if os.environ.get("C06_PINNED") == "1" else tuple(case.get("fixes", (1, 1, 1)))
 
-    # ----- construction
     def boom(self, what):
         if self.boom_exc is None:
             self.boom_exc = Boom(what)
         return self.boom_exc
 
-    def build_processor(self):
-        case = self.case
-        n = case["N"]
-        fault = case.get("fault") or {}
-        plugins, loaders, savers = {}, {}, {}
-        self.node_obj = {}
-        rechunk = set(case.get("rechunk", ()))
-        for nd in case["nodes"]:
-            name, kind = nd["name"], nd["kind"]
-            fpos = fault["pos"] if fault.get("node") == name else None
-            if kind == "loader":
-                loaders[name] = make_loader(name, n, fpos, self)
-                self.node_obj[name] = loaders[name]
+    def capture_threads(self):
+        for t in self.sched.threads:
+            if hasattr(t, "_c06_target"):
                 continue
-            provides = nd.get("provides") or [name]
-            cls = DuckPlugin
-            if kind == "multi":
-                cls = type("Multi_" + name, (DuckPlugin,), {"multi_output": True})
-            p = cls(name, nd.get("deps", ()), provides, n, fpos, self, rechunk=rechunk)
-            self.node_obj[name] = p
-            for d in provides:
-                if d not in loaders:
-                    plugins[d] = p
-        self.saver_objs = []
-        for d, cnt in case.get("savers", {}).items():
-            lst = []
-            for i in range(cnt):
-                fs = fault.get("saver")
-                mine = fs is not None and fs[0] == d and fs[1] == i
-                fpos = fault["pos"] if mine else None
-                s = MemSaver(d, fpos, self, fail_always=bool(mine and d in rechunk))
-                lst.append(s)
-                self.saver_objs.append(s)
-            savers[d] = lst
-        comps = strax.ProcessorComponents(plugins=plugins, loaders=loaders, loader_plugins={}, savers=savers,
-                                          targets=(case["target"],))
-        self.comps = comps
-        return strax.ThreadedMailboxProcessor(comps, allow_rechunk=True, allow_lazy=bool(case["lazy"]),
-                                              max_workers=case.get("max_workers"), max_messages=case["cap"],
-                                              timeout=BIG_TIMEOUT)
+            t._c06_target, t._c06_args = t._target, t._args
+            t._c06_locals = {}
+            if getattr(t._target, "__name__", "") == "_send_from":
+                gen = t._args[0]
+                t._c06_locals = dict(gen.gi_frame.f_locals) if gen.gi_frame is not None else {}
 
-    def make_iterator(self):
-        return self.proc.iter()
+    def proc_threads(self):
+        return [t for t in self.sched.threads if t is not self.caller]
 
     # ----- the caller
     def run_caller(self):
@@ -262,7 +231,7 @@ class NetSystem:
                     x = next(gen)
                 except StopIteration:
                     break
-                if cf and k == cf["chunk"]:
+                if cf and k == cf["chunk"] and (cf["close"] or not self.case.get("relay")):
                     if cf["close"]:
                         gen.close()
                         self.result = ("closed", None)
@@ -281,15 +250,16 @@ class NetSystem:
 
     def warmup(self):
         s = self.sched
-        # the caller: subscribe to the target, start the threads, reach the lock of _read
+        # the caller: (build the processor,) subscribe to the target, start the threads, reach the lock of _read
         guard = 0
-        while any(t.state == "new" for t in s.threads[:self.nproc_threads]):
+        while self.proc is None or len(s.threads) < 2 or any(t.state == "new" for t in s.threads):
             s.step(self.main_tid)
+            self.capture_threads()
             guard += 1
-            if guard > 20:
+            if guard > 50:
                 raise RuntimeError("warm-up of the caller does not converge")
         # every other thread up to its first yield point (thread-local code only)
-        todo = iter(range(self.nproc_threads))
+        todo = iter([t.tid for t in self.proc_threads()])
         s.run_driver(lambda sc: next(todo, None))
         del s.schedule[:]
         self.mbs = list(self.proc.mailboxes.values())
@@ -299,10 +269,12 @@ class NetSystem:
     def observe(self):
         s = self.sched
         o = []
-        for t in range(self.nproc_threads):
-            o.append(CODE[s.status(t)])
-        st = s.status(self.main_tid)
-        o.append(2 if st in ("done", "dead") else CODE[st])
+        for t in s.threads:
+            st = s.status(t.tid)
+            if t is self.caller:
+                o.append(2 if st in ("done", "dead") else CODE[st])
+            else:
+                o.append(CODE[st])
         for m in self.mbs:
             o += [len(m._mailbox), int(m.closed), int(m.killed), int(m.force_killed)]
         o.append(len(self.rows))
@@ -313,12 +285,7 @@ class NetSystem:
 
     def savers_in_thread_order(self):
         if not hasattr(self, "_sto"):
-            order = []
-            for t in self.sched.threads[:self.nproc_threads]:
-                sv = _saver_of(t._c06_target)
-                if sv is not None:
-                    order.append(sv)
-            self._sto = order
+            self._sto = [sv for sv in (_saver_of(t._c06_target) for t in self.proc_threads()) if sv is not None]
         return self._sto
 
     def exc_code(self, e):
@@ -339,6 +306,8 @@ class NetSystem:
             return C_CLOSED
         if isinstance(e, Mismatch):
             return C_MISMATCH
+        if isinstance(e, GeneratorExit):
+            return C_GENEXIT
         if isinstance(e, (StopIteration,)) or (isinstance(e, RuntimeError) and "StopIteration" in str(e)):
             return C_STOPITER
         if isinstance(e, Boom):
@@ -350,10 +319,16 @@ class NetSystem:
         if self.result is None:
             return -1
         kind, e = self.result
+        if kind == "closed":
+            return 1000 + C_GENEXIT      # close() returned: the generator re-raised GeneratorExit
         if kind == "err":
             c = self.exc_code(e)
             return c if c >= 2000 else 1000 + c
         return 0
+
+    def saver_state(self, sv):
+        return {"name": sv.md.get("data_type"), "closed": bool(sv.closed), "exception": "exception" in sv.md,
+                "got": self.exc_code(sv.got_exception), "rows": sum(ci["n"] for ci in sv.md["chunks"])}
 
     def final_info(self):
         s = self.sched
@@ -370,30 +345,92 @@ class NetSystem:
             "fired": self.boom_exc is not None,
             "consumer_fired": self.consumer_exc is not None,
             "rows": list(self.rows),
-            "savers": [{"name": sv.name, "closed": bool(sv.closed), "exception": "exception" in sv.md,
-                        "got": self.exc_code(sv.got_exception), "rows": sum(ci["n"] for ci in sv.md["chunks"])}
-                       for sv in self.savers_in_thread_order()],
+            "savers": [self.saver_state(sv) for sv in self.savers_in_thread_order()],
             "killed": [bool(m.killed) for m in self.mbs],
             "force_killed": [bool(m.force_killed) for m in self.mbs],
         }
 
-    # ----- the Coq network of this processor
     def model_net(self):
-        """tokens of <network> of driver/c06_main.ml, derived from the wiring of the real processor
-        (taken before any thread runs beyond its first yield point)"""
+        """tokens of <network> of driver/c06_main.ml, derived from the wiring of the real processor"""
         return self._net
 
+    def fault_thread_name(self):
+        """name (as given by ThreadedMailboxProcessor) of the thread the injected failure sits in"""
+        fault = self.case.get("fault")
+        if not fault:
+            return None
+        if "saver" in fault:
+            return "save_%d:%s" % (fault["saver"][1], self.dtype_name(fault["saver"][0]))
+        for nd in self.case["nodes"]:
+            if nd["name"] == fault["node"]:
+                if nd["kind"] == "loader":
+                    return "load:" + self.dtype_name(nd["name"])
+                if nd["kind"] == "multi":
+                    return "divide_outputs:"
+                return "build:" + self.dtype_name(nd["name"])
+        raise RuntimeError("unknown fault node %r" % (fault,))
 
-def _saver_of(target):
-    if isinstance(target, functools.partial) and getattr(target.func, "__name__", "") == "save_from":
-        return target.func.__self__
-    return None
+    def dtype_name(self, d):
+        return d
+
+
+class NetSystem(BaseSystem):
+    """The processor from hand-made components; thread ids: the processor's threads in creation order, then
+    the caller."""
+
+    def __init__(self, sched, case):
+        super().__init__(sched, case)
+        self.proc = self.build_processor()
+        self.capture_threads()
+        self.caller = sched.threading.Thread(target=self.run_caller, name="caller")
+        self.main_tid = self.caller.tid
+        self.caller.start()
+        self.capture_threads()
+        self.warmup()
+
+    def build_processor(self):
+        case = self.case
+        n = case["N"]
+        fault = case.get("fault") or {}
+        plugins, loaders, savers = {}, {}, {}
+        rechunk = set(case.get("rechunk", ()))
+        for nd in case["nodes"]:
+            name, kind = nd["name"], nd["kind"]
+            fpos = fault["pos"] if fault.get("node") == name else None
+            if kind == "loader":
+                loaders[name] = make_loader(name, n, fpos, self)
+                continue
+            provides = nd.get("provides") or [name]
+            cls = DuckPlugin
+            if kind == "multi":
+                cls = type("Multi_" + name, (DuckPlugin,), {"multi_output": True})
+            p = cls(name, nd.get("deps", ()), provides, n, fpos, self, rechunk=rechunk)
+            for d in provides:
+                if d not in loaders:
+                    plugins[d] = p
+        for d, cnt in case.get("savers", {}).items():
+            lst = []
+            for i in range(cnt):
+                fs = fault.get("saver")
+                mine = fs is not None and fs[0] == d and fs[1] == i
+                fpos = fault["pos"] if mine else None
+                lst.append(MemSaver(d, fpos, self, fail_always=bool(mine and d in rechunk)))
+            savers[d] = lst
+        comps = strax.ProcessorComponents(plugins=plugins, loaders=loaders, loader_plugins={}, savers=savers,
+                                          targets=(case["target"],))
+        self.comps = comps
+        return strax.ThreadedMailboxProcessor(comps, allow_rechunk=True, allow_lazy=bool(case["lazy"]),
+                                              max_workers=case.get("max_workers"), max_messages=case["cap"],
+                                              timeout=BIG_TIMEOUT)
+
+    def make_iterator(self):
+        return self.proc.iter()
 
 
 def derive_net(system):
-    """Build the model's network description from the real processor's mailboxes and threads.  Must be
-    called after the caller subscribed (warm-up) and while the generators are still at their start (the
-    thread targets / arguments are read before the threads consume them)."""
+    """Build the model's network description from the real processor's mailboxes and threads.  Called after
+    the caller subscribed to the target (warm-up); thread targets / arguments / generator locals were captured
+    before the threads ran."""
     proc, sched, case = system.proc, system.sched, system.case
     mbs = list(proc.mailboxes.values())
     mb_index = {id(m): i for i, m in enumerate(mbs)}
@@ -411,8 +448,13 @@ def derive_net(system):
 
     ttoks = []
     tid_of_saver = {}
-    tid_of_obj = {}
-    for t in threads[:system.nproc_threads]:
+    target_mb = proc.mailboxes[proc.components.targets[0]]
+    for t in threads:
+        if t is system.caller:
+            # the caller: the last subscriber of the target mailbox
+            ttoks += [4, mb_index[id(target_mb)], len(target_mb._subscriber_can_drive) - 1,
+                      int(bool(case.get("relay")))]
+            continue
         tg, args = t._c06_target, t._c06_args
         if isinstance(tg, functools.partial) and tg.func is strax.divide_outputs:
             mb, i = sub_of(args[0])
@@ -427,7 +469,6 @@ def derive_net(system):
             tid_of_saver[id(_saver_of(tg))] = t.tid
         elif getattr(tg, "__name__", "") == "_send_from":
             out = mb_index[id(tg.__self__)]
-            gen = args[0]
             loc = t._c06_locals
             iters = loc.get("iters")
             owner = loc.get("self")
@@ -438,35 +479,21 @@ def derive_net(system):
             ttoks += [0, n, out, len(ins)]
             for mb, i in ins:
                 ttoks += [mb, i]
-            tid_of_obj[id(owner) if owner is not None else id(gen.gi_code)] = t.tid
-            t._c06_owner = owner
         elif getattr(tg, "__name__", "") == "discarder":
             mb, i = sub_of(args[0])
             ttoks += [2, mb, i]
         else:
             raise RuntimeError("unrecognised processor thread %s (%r)" % (t.name, tg))
-    # the caller: the last subscriber of the target mailbox
-    target_mb = proc.mailboxes[case["target"]]
-    ttoks += [4, mb_index[id(target_mb)], len(target_mb._subscriber_can_drive) - 1, int(bool(case.get("relay")))]
     toks += [len(threads)] + ttoks
     # the injected failure
     fault = case.get("fault")
     ftid = -1
     if fault:
-        if "saver" in fault:
-            d, i = fault["saver"]
-            sv = system.comps.savers[d][i]
-            ftid = tid_of_saver[id(sv)]
-        else:
-            obj = system.node_obj[fault["node"]]
-            for t in threads[:system.nproc_threads]:
-                if getattr(t, "_c06_owner", None) is obj:
-                    ftid = t.tid
-                tg = t._c06_target
-                if getattr(tg, "__name__", "") == "_send_from" and getattr(t, "_c06_code", None) is getattr(obj, "__code__", None):
-                    ftid = t.tid
-            if ftid < 0:
-                raise RuntimeError("no thread for fault %r" % (fault,))
+        want = system.fault_thread_name()
+        hits = [t.tid for t in threads if t.name == want or (want.endswith(":") and t.name.startswith(want))]
+        if len(hits) != 1:
+            raise RuntimeError("fault %r: threads named %r: %s (all: %s)" % (fault, want, hits, [t.name for t in threads]))
+        ftid = hits[0]
         pos = fault["pos"]
         if "saver" in fault and fault["saver"][0] in case.get("rechunk", ()):
             pos = n          # a rechunking saver saves everything at the final flush
@@ -478,10 +505,11 @@ def derive_net(system):
         toks += [cf["chunk"], int(bool(cf["close"])), C_CONSUMER]
     else:
         toks += [-1, 0, 0]
+    toks += list(system.fixes)
     toks += [len(mbs)] + list(range(len(mbs)))
     join = [t.tid for m in mbs for t in m._threads]
     toks += [len(join)] + join
-    sav = [tid_of_saver[id(s)] for lst in system.comps.savers.values() for s in lst]
+    sav = [tid_of_saver[id(s)] for lst in proc.components.savers.values() for s in lst]
     toks += [len(sav)] + sav
     toks += [system.main_tid]
     system.fault_tid = ftid
